@@ -242,6 +242,11 @@ func validateSerializedContainer(data []byte) (byte, error) {
 		return 0, ErrHandlerNotFound
 	}
 
+	// bytes that only look like a container header but declare a length that doesn't fit the data are not a container
+	if _, err := getSerializedContainerLength(data); err != nil {
+		return 0, err
+	}
+
 	return envelopeID, nil
 }
 
